@@ -87,6 +87,7 @@ def product(grid):
 
 
 def gen_spec(rng, sid, fault_ordinal=None, base=None):
+    base_is_new = base is None
     if base is None:
         grid = gen_grid(rng)
         reps = rng.choice([1, 1, 2, 3])
@@ -110,6 +111,16 @@ def gen_spec(rng, sid, fault_ordinal=None, base=None):
                     collector_priority=rng.choice([None, None, 0]))   # 0 = same priority as the completing system   # the ParameterList was built before and a parameter removed since
     spec = dict(base)
     spec['id'] = sid
+    if base_is_new and rng.random() < 0.1:
+        # plain replication: no parameters at all, only repetitions - more of them than twice the number of workers now and then
+        spec['grid'] = {}
+        spec['no_params'] = True
+        spec['repetitions'] = rng.choice([1, 2, 3, 5, 9, 13, 20])
+        spec['explicit_reps'] = True
+        spec['pl_from_dict'] = spec['pl_history'] = False
+        spec['pl_warmup'] = None
+        spec['rejected_first'] = None
+        spec['processes'] = rng.choice([1, 2, 2, 3, 4])
     if spec.get('warmup') and 'fault' not in spec and fault_ordinal is None and rng.random() < 0.6:
         # a step limit close to where the warm-up left the clock, completion well beyond both
         spec['max_timesteps'] = max(0, spec['warmup'] + rng.choice([-1, 0, 1, 2]))
@@ -222,6 +233,10 @@ def check_batch(ctx, spec, out):
     ctx.ev()
     if n == 0:
         ctx.count('batches_with_an_empty_product')
+    if spec.get('no_params'):
+        ctx.count('replication_batches_without_parameters')
+        if n > 2 * spec['processes'] and spec['processes'] > 1:
+            ctx.count('replication_batches_with_more_runs_than_twice_the_workers')
     if lim is not None and lim < spec['stop']:
         ctx.count('limit_below_completion')
     if lim is not None and lim > spec['stop']:
